@@ -5,9 +5,9 @@
      B. the side conditions [ground_wf_b] and what "the strict documented step is defined" means ([step_defined]);
      C. preconditions: [ground_pre_spec];
      D. effects: [ground_effects_fired] (the fired effect instances of the grounded action = those of the action);
-     E. the step theorems: [grounded_eq_ungrounded], [grounded_refines_semantic], [grounded_never_less_defined],
-        [ground_pre_never_less_satisfied];
-     F. the three deviations as witnesses inside the model. *)
+     E. the step theorems: [grounded_eq_ungrounded], [grounded_refines_semantic], [grounded_strict_refines_semantic],
+        [grounded_never_less_defined], [ground_pre_never_less_satisfied]; [env_ok_of_tables];
+     F. the three deviations as witnesses inside the model, non-vacuity. *)
 From Coq Require Import List ZArith NArith QArith Qcanon Bool Lia.
 Import ListNotations.
 Require Import UPV.Core.Expr UPV.Core.Eval UPV.Core.Interp UPV.Planning.Problem UPV.Planning.Sem UPV.Planning.Ground
@@ -562,6 +562,26 @@ Proof.
   intros acts HA. apply ET. rewrite <- HA. symmetry. apply fired_any_sc. exact (sd_eff _ _ _ _ SD).
 Qed.
 
+(* the same with strict quantifiers on both sides: no hypothesis on the invariants is needed.  Read contrapositively it
+   classifies a deviation: when the grounded action, evaluated STRICTLY, behaves differently from the strict documented
+   step although nothing conflicts syntactically and no forall variable vanished, then some precondition has no
+   Boolean value or some effect instance cannot be evaluated in the state — simplification removed a read of a fluent
+   without value (Corr_C01g bit 13) *)
+Theorem grounded_strict_refines_semantic T P tau QT s a args :
+  ground_wf_b tau QT a = true ->
+  env_ok (gcfg T P) tau QT (mk_interp P s []) ->
+  pre_defined (mk_interp P s (zip_params (a_params a) args)) (a_pre a) ->
+  fired false (mk_interp P s (zip_params (a_params a) args)) (a_effs a) <> None ->
+  effects_typed false P s a args ->
+  ground_conflict T P a args = false ->
+  vars_dropped T P a args = false ->
+  ostate_eq (sim_apply_grounded false T P s a args) (spec_step false P s a args).
+Proof.
+  intros W HE HD HF ET HC HV.
+  rewrite (grounded_eq_ungrounded false T P tau QT s a args W HE HD HF HC HV).
+  apply sim_apply_refines_spec. exact ET.
+Qed.
+
 (* whenever the strict documented step is applicable, every read it makes is defined *)
 Lemma spec_step_some_defined P s a args s' : spec_step false P s a args = Some s' -> step_defined P s a args.
 Proof.
@@ -779,22 +799,25 @@ Proof.
   destruct (0 =? f)%N; [discriminate|]. destruct (1 =? f)%N; discriminate.
 Qed.
 
+(* (top-level definitions rather than `let ... in` in the statement: coqchk 8.16 rejects the VM-cast proof term of a
+   let-bound statement although the kernel accepts it) *)
+Definition args_nv : list value := [VObj 0%N].
+Definition tau_nv : N -> N := fun _ => 0%N.
+
 Lemma grounded_nonvacuous :
-  let args := [VObj 0%N] in
-  let tau := fun _ : N => 0%N in
-  ground_wf_b tau (qt_of P_nv) a_nv = true /\
-  env_ok (gcfg T1 P_nv) tau (qt_of P_nv) (mk_interp P_nv s_nv []) /\
-  step_defined P_nv s_nv a_nv args /\
-  effects_typed false P_nv s_nv a_nv args /\
-  ground_conflict T1 P_nv a_nv args = false /\
-  vars_dropped T1 P_nv a_nv args = false /\
-  (exists g, ground_action T1 P_nv a_nv args = Some g /\ a_pre g = [EFluent 0%N [EObj 0%N]]) /\
-  (exists t, sim_apply_grounded true T1 P_nv s_nv a_nv args = Some t /\
+  ground_wf_b tau_nv (qt_of P_nv) a_nv = true /\
+  env_ok (gcfg T1 P_nv) tau_nv (qt_of P_nv) (mk_interp P_nv s_nv []) /\
+  step_defined P_nv s_nv a_nv args_nv /\
+  effects_typed false P_nv s_nv a_nv args_nv /\
+  ground_conflict T1 P_nv a_nv args_nv = false /\
+  vars_dropped T1 P_nv a_nv args_nv = false /\
+  (exists g, ground_action T1 P_nv a_nv args_nv = Some g /\ a_pre g = [EFluent 0%N [EObj 0%N]]) /\
+  (exists t, sim_apply_grounded true T1 P_nv s_nv a_nv args_nv = Some t /\
              t 0%N [VObj 0%N] = Some (VBool false) /\ t 1%N [] = Some (VNum (zq 2))).
 Proof.
-  cbv zeta. split; [vm_compute; reflexivity|].
+  split; [vm_compute; reflexivity|].
   split; [apply env_ok_of_tables; [vm_compute; reflexivity | exact state_typed_nv]|].
-  assert (SS : exists t, spec_step false P_nv s_nv a_nv [VObj 0%N] = Some t).
+  assert (SS : exists t, spec_step false P_nv s_nv a_nv args_nv = Some t).
   { eexists. vm_compute. reflexivity. }
   destruct SS as [t Ht].
   split; [exact (spec_step_some_defined _ _ _ _ _ Ht)|].
